@@ -56,7 +56,7 @@ type Session struct {
 }
 
 func NewSession(bin string, args []string) (*Session, error) {
-	s := &Session{bin: bin, args: args, timeout: 30000, incTimeout: 400, hardTimeout: 120000}
+	s := &Session{bin: bin, args: args, timeout: 30000, incTimeout: 400, hardTimeout: 300000}
 	if err := s.start(); err != nil {
 		return nil, err
 	}
